@@ -12,10 +12,14 @@
    lives in a namespace id that has no URI in [w_uris] (so no spelling can name
    it) and is called like the element (the class name suds gives the object).
 
-   Not modelled (never generated, see harness/c03.py): ElementQuery's deep
-   search for local element names spelled without a path, simpleContent /
-   mixed types, element refs, a path separator other than '.', dangling type
-   references (treated like built-ins). *)
+   An <element ref=".."/> member is a member with the name, namespace and type
+   of the global element; a named group reference stands for its content; a
+   simpleContent type is a type listed in [w_mixed] (its object is a Property:
+   "value", then the attributes); ElementQuery's deep search is [deep_find].
+
+   Not modelled (never generated, see harness/c03.py): the deep search through
+   a named group definition, simpleContent over a user type, a path separator
+   other than '.', dangling type references (treated like built-ins). *)
 From SV Require Import Lib.Base Fam.Schema Gen.C03Tables.
 
 (* ------------------------------------------------------------------ *)
